@@ -83,6 +83,30 @@ fn spec_coefficients(sigs: &[Vec<u8>]) -> Vec<Vec<u8>> {
     (0..sigs.len()).map(|i| { let mut hi = h.clone(); hi.update((i as u64).to_be_bytes()); hi.finalize().to_vec() }).collect()
 }
 
+/// oracle of the LAST step of `batch_verify`: the per-member aggregates (hook H4) summed WITHOUT weights and checked by one
+/// `aggregate_verify` over msg ‖ root. It is NOT the conjunction of the members' own aggregate checks: errors of
+/// different members can cancel.
+fn batch_final(root: &[u8], msg: &[u8], members: &[(Value, Parameters)]) -> u8 {
+    use blst::min_sig::{AggregateSignature as BlstAgg, PublicKey, Signature};
+    let mut sigs = vec![];
+    let mut pks = vec![];
+    for (v, _) in members {
+        let Some(l) = v["signatures"].as_array() else { return 0 };
+        let vk_bytes: Vec<Vec<u8>> = l.iter().map(|s| bytes_of(&s[1][0])).collect();
+        let sig_bytes: Vec<Vec<u8>> = l.iter().map(|s| bytes_of(&s[0]["sigma"])).collect();
+        let Some((vk, sg)) = bls_aggregate(&vk_bytes, &sig_bytes) else { return 0 };
+        let (Ok(pk), Ok(sg)) = (PublicKey::from_bytes(&vk), Signature::from_bytes(&sg)) else { return 0 };
+        pks.push(pk);
+        sigs.push(sg);
+    }
+    if sigs.is_empty() { return 1; }
+    let Ok(sum) = BlstAgg::aggregate(&sigs.iter().collect::<Vec<_>>(), false) else { return 0 };
+    let mut m = msg.to_vec();
+    m.extend_from_slice(root);
+    let msgs: Vec<&[u8]> = members.iter().map(|_| m.as_slice()).collect();
+    (sum.to_signature().aggregate_verify(false, &msgs, &[], &pks.iter().collect::<Vec<_>>(), false) == blst::BLST_ERROR::BLST_SUCCESS) as u8
+}
+
 fn bytes_of(v: &Value) -> Vec<u8> {
     v.as_array().map(|a| a.iter().map(|x| x.as_u64().unwrap_or(0) as u8).collect()).unwrap_or_default()
 }
@@ -472,6 +496,73 @@ fn main() {
                 let i = sink.case(if bad_pos < size { "batch-one-bad" } else { "batch-all-good" }, &req, &out);
                 if out == "ok" && !alone_ok { sink.sfail(i, "batch", "batch accepted although a member is rejected alone", &req); }
                 if out != "ok" && alone_ok { sink.sfail(i, "batch-complete", "batch of individually valid aggregates rejected", &req); }
+            }
+        }
+        // ---- batch: TWO bad members whose BLS errors cancel ACROSS the batch: single-signature members (no coefficient
+        // is applied to a lone signature) with sigma + D and sigma - D; indices re-derived for the new bytes, k = what is won
+        if !sink.wanted() { sink.skip(); } else {
+            let mut pair: Option<Vec<(Value, Parameters)>> = None;
+            'signer: for s in &honest {
+                let cov = s.get_concatenation_signature_indices().len() as u64;
+                if cov == 0 { continue; }
+                let mut p1 = params; p1.k = cov;
+                let clerk1 = mithril_stm::Clerk::<D>::new_clerk_from_closed_key_registration(&p1, &f.closed);
+                let Ok(single) = aggregate(&f, &clerk1, &[s.clone()], &msg) else { continue };
+                let sv = serde_json::to_value(&single).unwrap();
+                if sv["signatures"].as_array().map(|l| l.len()) != Some(1) { continue; }
+                let sg = bytes_of(&sv["signatures"][0][0]["sigma"]);
+                let st = sv["signatures"][0][1][1].as_u64().unwrap();
+                let base = p1_from(&sg);
+                let mut d = p1_add(&base, &base);
+                for _try in 0..24 {
+                    let forged = |sgn: Vec<u8>| -> Option<(Value, Parameters)> {
+                        if sgn[0] & 0x40 != 0 { return None; } // point at infinity
+                        let idx: Vec<u64> = (0..m).filter(|i| ctx.won(&params, &sgn, *i, st)).collect();
+                        if idx.is_empty() { return None; }
+                        let mut v = sv.clone();
+                        v["signatures"][0][0]["sigma"] = json!(sgn);
+                        v["signatures"][0][0]["indexes"] = json!(idx);
+                        let mut p = params; p.k = idx.len() as u64;
+                        Some((v, p))
+                    };
+                    if let (Some(a), Some(b)) = (forged(p1_to(&p1_add(&base, &d))), forged(p1_to(&p1_add(&base, &p1_neg(&d))))) { pair = Some(vec![a, b]); break 'signer; }
+                    d = p1_add(&d, &base);
+                }
+            }
+            match pair {
+                None => sink.skip(),
+                Some(members) => {
+                    let parsed: Option<Vec<AggregateSignature<D>>> = members.iter().map(|(v, _)| serde_json::from_value(v.clone()).ok()).collect();
+                    match parsed {
+                        None => sink.skip(),
+                        Some(parsed) => {
+                            let size = members.len();
+                            let msgs: Vec<Vec<u8>> = vec![msg.clone(); size];
+                            let avks = vec![f.avk.clone(); size];
+                            let ps: Vec<Parameters> = members.iter().map(|m| m.1).collect();
+                            let (none_v, none_g) = (vec![None; size], vec![None; size]);
+                            let out = match catch(std::panic::AssertUnwindSafe(|| AggregateSignature::batch_verify(&parsed, &msgs, &avks, &ps, &none_v, &none_g))) {
+                                Ok(Ok(())) => "ok".to_string(),
+                                Ok(Err(_)) => "err".to_string(),
+                                Err(_) => "panic".to_string(),
+                            };
+                            let mut mems = vec![];
+                            let mut alone_ok = true;
+                            for (v, p) in &members {
+                                let (mem, _) = ctx.member(p, v).unwrap();
+                                mems.push(mem);
+                                alone_ok &= real_verify(&f, p, v, &msg) == "ok";
+                            }
+                            let req = format!("c01.batch members=[{}]", mems.join(","));
+                            let i = sink.case("batch-cross-member-cancellation", &req, &out);
+                            if out == "ok" && !alone_ok { sink.sfail(i, "batch", "batch accepted although a member is rejected alone", &req); }
+                            if w == 0 {
+                                // the repaired finding, replayed on the real code every run (the un-weighted sum of the members' aggregates still verifies)
+                                sink.witness("C01-batch-cancellation", out == "ok" && !alone_ok, &format!("two members with sigma + D and sigma - D: each alone accepted = {}, batch_verify -> {}, un-weighted sum of the aggregates verifies = {}", alone_ok, out, batch_final(&ctx.root, &msg, &members)));
+                            }
+                        }
+                    }
+                }
             }
         }
     }
